@@ -1,4 +1,6 @@
 import ArrModel.Index
+import ArrModel.IndexExt
+import ArrModel.Split
 import Driver.Proto
 namespace Driver.C02
 open ArrModel Driver
@@ -21,6 +23,18 @@ def handle (op : String) (args : List String) : Option String :=
   | "op_index_coords", [a, c] => do
     let a ← parseArr? a; let c ← parseNatList? c
     some (showRes toString (a.opIndexCoords c))
+  -- extension: the two remaining lookup operations; results are whole arrays `shape:elems`
+  | "slice", [a, s, e] => do
+    let a ← parseArr? a; let s ← parseNat? s; let e ← parseNat? e
+    some (showRes showArr (a.slice s e))
+  | "indices_at", [a, l] => do
+    let a ← parseArr? a; let l ← parseNatList? l
+    -- cross-check of the two models on every explored case: the row blocks `axis0Pieces` that `indicesAt` is
+    -- stated on must be the element lists of the pieces the C11 model of `split_axis(0)` returns
+    if a.ndim ≥ 2 && (a.splitAxis 0 0).map (fun ps => ps.map (·.elems)) != .ok a.axis0Pieces then
+      some "model-disagree: axis0Pieces is not split_axis(0)"
+    else
+      some (showRes showArr (a.indicesAt l))
   | _, _ => none
 
 end Driver.C02
